@@ -85,15 +85,18 @@ Lemma view_snoc c evs e :
   view c (evs ++ [e]) = mon_step c (view c evs) e (snd (step c (run c evs) e)).
 Proof. unfold view. rewrite trace_snoc, mon_run_snoc. reflexivity. Qed.
 
-Lemma R_run c evs : R c (run c evs) (view c evs).
+Lemma R_run_full c evs : R c (run c evs) (view c evs).
 Proof.
   induction evs as [|e evs IH] using rev_ind.
   - apply R_init.
   - rewrite run_snoc, view_snoc. apply (step_ok c _ _ e IH).
 Qed.
 
+Lemma R_run c evs : Rc c (run c evs) (view c evs).
+Proof. apply R_run_full. Qed.
+
 Lemma p_step_run c evs e : p_step c (view c evs) e (snd (step c (run c evs) e)) = "".
-Proof. apply (step_ok c _ _ e (R_run c evs)). Qed.
+Proof. apply (step_ok c _ _ e (R_run_full c evs)). Qed.
 
 (* ---- what the monitor knows is determined by the events -------------------------------- *)
 
@@ -129,7 +132,7 @@ Qed.
 Lemma view_births c evs : map m_birth (mo_ctxs (view c evs)) = births evs.
 Proof.
   induction evs as [|e evs IH] using rev_ind; [reflexivity|].
-  rewrite view_snoc, births_snoc, <- IH. unfold mon_step. cbn [mo_ctxs].
+  rewrite view_snoc, births_snoc, <- IH. unfold mon_step, ctxs_step. cbn [mo_ctxs].
   rewrite <- (view_tl c evs).
   destruct e; cbn [target]; try (rewrite app_nil_r; reflexivity);
     try (rewrite map_app; reflexivity);
@@ -219,7 +222,7 @@ Proof.
     assert (Hz : match e, o with Fire i _, ORearm _ => if Nat.eqb i id then 1%nat else 0%nat | _, _ => 0%nat end = 0%nat).
     { destruct e; try reflexivity. discriminate. }
     rewrite Hz, Nat.add_0_r.
-    destruct e; cbn [target] in Ht; try discriminate; unfold mon_step; cbn [target mo_ctxs];
+    destruct e; cbn [target] in Ht; try discriminate; unfold mon_step, ctxs_step; cbn [target mo_ctxs];
       try (destruct (nth_error (mo_ctxs (view c evs)) id) as [m|];
            [destruct Hid as [Hc Hr]; split; [intros Hcn; apply in_or_app; left; auto|exact Hr] | exact Hid]).
     (* NewCtx: one more context, born with clean flags *)
@@ -424,7 +427,7 @@ Proof.
            destruct e, o; cbn [note_out note_event m_expire]; rewrite ?He1; reflexivity.
         -- rewrite (nth_error_set_nth_neq _ _ _ _ Hne). exists m1. split; assumption.
       * rewrite (mon_step_target_none c _ e o id0 Ht Hm0). exists m1. split; assumption.
-    + exists m1. split; [|exact He1]. unfold mon_step. rewrite Ht. cbn [mo_ctxs].
+    + exists m1. split; [|exact He1]. unfold mon_step, ctxs_step. rewrite Ht. cbn [mo_ctxs].
       destruct e; try exact Hm1.
       rewrite nth_error_app1 by (apply nth_error_Some; congruence). exact Hm1.
 Qed.
@@ -535,4 +538,44 @@ Proof.
   - unfold trace. cbn [trace_from].
     change (fst (step (mkCfg ms 0) init (NewCtx 0))) with (spin_state ms).
     cbn [rearms]. apply spin_rearms.
+Qed.
+
+(* ---- timers (SuspendableClock.NewTimer) ------------------------------------------------------- *)
+
+Lemma timer_delivery_lemma : forall c evs e id m v ms bs,
+  ttarget e = Some id ->
+  nth_error (mo_tmrs (mon_run c (trace c evs))) id = Some m ->
+  snd (step c (run c evs) e) = ODeliver v ms bs ->
+  mt_stopped m = false /\ mt_delivered m = false /\
+  match e with
+  | TFire _ tf => v = tf /\ mt_d m - thr c < tl_uns (timeline evs) - mt_U0 m
+  | TMaxFire _ tf => v = tf /\ mt_T0 m + mt_d m + maxSusp c <= tl_now (timeline evs)
+  | _ => False
+  end.
+Proof.
+  intros c evs e id m v ms bs Ht Hm Ho.
+  pose proof (p_step_run c evs e) as Hp. rewrite Ho in Hp. fold (view c evs) in Hm.
+  rewrite <- (view_tl c evs).
+  destruct e; cbn [ttarget] in Ht; try discriminate; injection Ht as ->;
+    cbn [p_step] in Hp; rewrite Hm in Hp; cbn [p_tstep] in Hp; try discriminate;
+    unfold p_tdeliver in Hp;
+    (destruct (mt_delivered m); [discriminate|]); (destruct (mt_stopped m); [discriminate|]);
+    (destruct (v =? tf) eqn:Ev; cbn [negb] in Hp; [|discriminate]).
+  - destruct (mt_d m - thr c <? tl_uns (mo_tl (view c evs)) - mt_U0 m) eqn:E; cbn [negb] in Hp; [|discriminate].
+    repeat split; lia.
+  - destruct (mt_T0 m + mt_d m + maxSusp c <=? tl_now (mo_tl (view c evs))) eqn:E; cbn [negb] in Hp; [|discriminate].
+    repeat split; lia.
+Qed.
+
+Lemma timer_stop_result_lemma : forall c evs id m ret gone,
+  nth_error (mo_tmrs (mon_run c (trace c evs))) id = Some m ->
+  snd (step c (run c evs) (TStop id)) = OTStop ret gone ->
+  ret = negb (mt_stopped m || mt_delivered m) /\ (ret = true -> mt_parked m = false -> gone = true).
+Proof.
+  intros c evs id m ret gone Hm Ho.
+  pose proof (p_step_run c evs (TStop id)) as Hp. rewrite Ho in Hp. fold (view c evs) in Hm.
+  cbn [p_step] in Hp. rewrite Hm in Hp. cbn [p_tstep] in Hp.
+  destruct (Bool.eqb ret (negb (mt_stopped m || mt_delivered m))) eqn:E; cbn [negb] in Hp; [|discriminate].
+  apply Bool.eqb_prop in E. split; [exact E|].
+  intros -> Hpk. rewrite Hpk in Hp. cbn [negb andb] in Hp. destruct gone; [reflexivity|discriminate].
 Qed.
